@@ -396,17 +396,25 @@ pub struct ExactStats {
 impl ExactStats {
     /// `xs` finite, non-empty.
     pub fn new(xs: &[f64], max_p: usize) -> ExactStats {
+        let w: Vec<(f64, u64)> = xs.iter().map(|x| (*x, 1u64)).collect();
+        ExactStats::new_weighted(&w, max_p)
+    }
+
+    /// Exact statistics of a multiset given as (value, multiplicity) pairs (total count < 2^63).
+    pub fn new_weighted(xs: &[(f64, u64)], max_p: usize) -> ExactStats {
+        let xs: Vec<(f64, u64)> = xs.iter().copied().filter(|p| p.1 > 0).collect();
         assert!(!xs.is_empty());
-        let n = xs.len() as u64;
-        let dec: Vec<(i64, i64)> = xs.iter().map(|&x| decompose(x)).collect();
+        let n: u64 = xs.iter().map(|p| p.1).sum();
+        let dec: Vec<(i64, i64)> = xs.iter().map(|&(x, _)| decompose(x)).collect();
         let emin = dec.iter().filter(|d| d.0 != 0).map(|d| d.1).min().unwrap_or(0);
         let ints: Vec<Big> = dec
             .iter()
             .map(|&(m, e)| if m == 0 { Big::zero() } else { Big::from_i64(m).shl((e - emin) as u64) })
             .collect();
+        let mults: Vec<Big> = xs.iter().map(|p| Big::from_u64(p.1)).collect();
         let mut s1 = Big::zero();
-        for v in &ints {
-            s1 = s1.add(v);
+        for (v, m) in ints.iter().zip(mults.iter()) {
+            s1 = s1.add(&v.mul(m));
         }
         let nb = Big::from_u64(n);
         let mean = Rat::new(s1.clone(), nb.clone(), emin);
@@ -427,17 +435,18 @@ impl ExactStats {
                 npow = npow.mul(&nb);
                 let mut t = Big::zero();
                 let mut ta = Big::zero();
-                for pw in &pows {
-                    t = t.add(pw);
-                    ta = ta.add(&pw.abs());
+                for (pw, mu) in pows.iter().zip(mults.iter()) {
+                    let term = pw.mul(mu);
+                    t = t.add(&term);
+                    ta = ta.add(&term.abs());
                 }
                 m.push(Rat::new(t, npow.clone(), emin * p as i64));
                 a.push(Rat::new(ta, npow.clone(), emin * p as i64));
             }
         }
-        let max_abs = xs.iter().fold(0.0f64, |acc, &x| acc.max(x.abs()));
-        let min = xs.iter().cloned().fold(f64::INFINITY, f64::min);
-        let max = xs.iter().cloned().fold(f64::NEG_INFINITY, f64::max);
+        let max_abs = xs.iter().fold(0.0f64, |acc, p| acc.max(p.0.abs()));
+        let min = xs.iter().map(|p| p.0).fold(f64::INFINITY, f64::min);
+        let max = xs.iter().map(|p| p.0).fold(f64::NEG_INFINITY, f64::max);
         let sigma = if max_p >= 2 { m[2].to_f64().sqrt() } else { f64::NAN };
         let kappa = if sigma > 0.0 { 1.0 + max_abs / sigma } else { f64::INFINITY };
         ExactStats { n, mean, m, a, max_abs, min, max, sigma, kappa }
